@@ -142,6 +142,9 @@ func c01Scenarios(tier string) []*world.Scenario {
 			}
 		}
 	}
+	// multi-key requests that can only be routed in part (one key in an unowned range) are answered locally
+	// while an already routed fragment is still in flight; everything after them must still be answered in order
+	out = append(out, c01Partial(tier)...)
 	if tier == "thorough" {
 		for _, p1 := range pipelines(c01Kinds[:5], 2) {
 			for _, p2 := range pipelines(c01Kinds[:5], 2) {
@@ -150,6 +153,60 @@ func c01Scenarios(tier string) []*world.Scenario {
 		}
 		for _, p := range pipelines([]string{"FA", "M2", "PING"}, 1) {
 			out = append(out, c01Scenario([][]string{p, {"FA"}, {"M2"}}, true, 3))
+		}
+	}
+	return out
+}
+
+func c01Partial(tier string) []*world.Scenario {
+	var out []*world.Scenario
+	gap := keysGap[0]
+	b := 2
+	if tier == "thorough" {
+		b = 4
+	}
+	partial := func(kind string, j int) Req {
+		var r Req
+		switch kind {
+		case "mget":
+			r = MGetReq(keysA[j], gap)
+		case "del":
+			r = DelReq(keysA[j], gap)
+		default:
+			r = MSetReq(keysA[j], "v", gap, "w")
+		}
+		r.Kind = "PARTIAL-" + kind
+		r.Expect = []byte(world.RErrUnknownSlot)
+		r.Local = true
+		return r
+	}
+	shapes := [][]string{{"P", "FA", "FB"}, {"FA", "P", "FB"}, {"P", "P", "FA"}, {"FB", "FA", "P"}, {"P", "PING", "FA"}}
+	for _, kind := range []string{"mget", "del", "mset"} {
+		for _, sh := range shapes {
+			for _, one := range []bool{true, false} {
+				var reqs []Req
+				var kinds []string
+				for j, k := range sh {
+					switch k {
+					case "P":
+						reqs = append(reqs, partial(kind, j))
+						kinds = append(kinds, "PARTIAL")
+					default:
+						reqs = append(reqs, c01Req(k, j+5, 0))
+						kinds = append(kinds, k)
+					}
+				}
+				sc := &world.Scenario{Nodes: Tgap(), Bound: b, Horizon: 300, Family: "partial-routing/1c",
+					OrderSites: []string{"core/server/server_c.go:OnCReact:Body"}}
+				sc.Clients = []world.ClientSpec{ClientOf(reqs, one)}
+				sc.Name = fmt.Sprintf("C01/partial/%s/%s/one=%v/d%d", kind, strings.Join(sh, ","), one, b)
+				kk := [][]string{kinds}
+				sc.Check = func(w *world.World) []world.Violation {
+					vs := CheckStreams(w, StreamOpts{Kinds: kk, LocalIdx: func(ci, j int) bool { return isLocalKind(kk[ci][j]) || kk[ci][j] == "PARTIAL" }})
+					return append(vs, BackendsWellFormed(w)...)
+				}
+				out = append(out, sc)
+			}
 		}
 	}
 	return out
